@@ -132,11 +132,14 @@ def meta(tier):
         "rule": "every public predicate/accessor of py/inspection.py (one unit each) x every catalogue entry of its declared "
         "domain (DESIGN Appendix A); a case is (predicate, entry label); judged: no exception, admissible answer, stability "
         "(2nd call, call after clearing all memo caches), spelling independence on twin entries, origin() instantiable for "
-        "collection annotations; each pair starts from the cold state",
+        "collection annotations; each pair starts from the cold state; reordered twins (distinct objects that are == but list "
+        "their members in another order): the answer for Y right after X, without clearing, equals Y's own cold answer "
+        "compared with member order, and vice versa",
         "bounds": {"predicates": len(SPECS), "catalogue_entries": len(cat),
                    "base_entries": sum(1 for e in cat if "wrapper" not in e.tags),
                    "wrapper_entries": sum(1 for e in cat if "wrapper" in e.tags),
-                   "wrapper_chain_depth": 1 if tier == "quick" else 2},
+                   "wrapper_chain_depth": 1 if tier == "quick" else 2,
+                   "reordered_twin_pairs": len(C.reordered_pairs(tier))},
         "assumptions": [
             "class-valued predicates are applied only to entries whose resolve() is a class; special forms (unions, Literal, "
             "Final, ClassVar, TypeVar, Callable, Any, ForwardRef, Annotated) are outside their domain",
@@ -161,9 +164,50 @@ def _eq(a, b) -> bool:
         return False
 
 
+def _ordered_eq(a, b, _d=0) -> bool:
+    """Equality that keeps the member order of Union / Literal / generic arguments (their == ignores it)."""
+    import inspect
+
+    if a is b:
+        return True
+    if _d > 20 or isinstance(a, bool) or isinstance(b, bool):
+        return _eq(a, b)
+    if isinstance(a, (tuple, list)) and isinstance(b, (tuple, list)):
+        return type(a) is type(b) and len(a) == len(b) and all(_ordered_eq(x, y, _d + 1) for x, y in zip(a, b))
+    if isinstance(a, inspect.Signature) and isinstance(b, inspect.Signature):
+        return _ordered_eq(list(a.parameters.values()), list(b.parameters.values()), _d + 1) and _ordered_eq(
+            a.return_annotation, b.return_annotation, _d + 1)
+    if isinstance(a, inspect.Parameter) and isinstance(b, inspect.Parameter):
+        return (a.name, a.kind) == (b.name, b.kind) and _ordered_eq(a.default, b.default, _d + 1) and _ordered_eq(
+            a.annotation, b.annotation, _d + 1)
+    if hasattr(a, "keys") and hasattr(b, "keys") and hasattr(a, "values"):
+        try:
+            return list(a.keys()) == list(b.keys()) and _ordered_eq(list(a.values()), list(b.values()), _d + 1)
+        except Exception:  # noqa: BLE001
+            return _eq(a, b)
+    try:
+        aa, ba = typing.get_args(a), typing.get_args(b)
+    except Exception:  # noqa: BLE001
+        aa = ba = ()
+    if aa or ba:
+        return _ordered_eq(typing.get_origin(a), typing.get_origin(b), _d + 1) and _ordered_eq(aa, ba, _d + 1)
+    return _eq(a, b)
+
+
 def _short(v, n=90):
     s = repr(v)
     return s if len(s) <= n else s[: n - 3] + "..."
+
+
+def _show(v, n=90):
+    """repr plus the member order where the repr hides it (typing.Optional[int] for both Union[None, int] orders)."""
+    a = ()
+    try:
+        a = typing.get_args(v)
+    except Exception:  # noqa: BLE001
+        pass
+    s = _short(v, n)
+    return f"{s} [members: {', '.join(_short(x, 30) for x in a)}]" if a and s.startswith("typing.Optional") else s
 
 
 def _cold_call(spec, obj):
@@ -274,6 +318,32 @@ def _raise_kind(spec, e):
     return e.kind.split(":", 1)[0] if ":" in e.kind else e.kind
 
 
+def judge_reordered(spec, x, y, kind, res):
+    """Reordered twins X == Y (distinct objects, other member order): the answer for Y given right after X was asked,
+    without clearing, must be Y's own cold answer - compared keeping member order - and vice versa."""
+    name = spec.name
+    cold_ans = {}
+    for e in (x, y):
+        cold_ans[e.label] = _cold_call(spec, e.obj)
+    for first, second in ((x, y), (y, x)):
+        cold.clear_all()
+        call(spec.fn, first.obj)
+        warm = call(spec.fn, second.obj)
+        ref = cold_ans[second.label]
+        res.evals += 1
+        res.hit("reordered-pair:" + name)
+        same = (warm.ok == ref.ok) and (_ordered_eq(warm.val, ref.val) if warm.ok else warm.excname == ref.excname)
+        key = h64(name, "reordered", first.label, second.label, _short(warm.val, 200) if warm.ok else "raises:" + str(warm.excname))
+        res.outcomes.add(key)
+        if not same:
+            res.violation(
+                f"C17/{name}/reordered-twin/{kind}",
+                f"{name}({second.label}) asked right after {name}({first.label}) = "
+                f"{_show(warm.val) if warm.ok else 'raises ' + warm.excname}; from the cold state it is "
+                f"{_show(ref.val) if ref.ok else 'raises ' + ref.excname} (the two objects are == but list their members in another order)",
+                {"pred": name, "entry": x.label, "twin": y.label, "kind": kind, "clause": "reordered-twin"})
+
+
 def _describe(spec, e):
     try:
         exp = spec.expect(e)
@@ -309,6 +379,10 @@ def run_unit(unit, tier, res):
             res.samples.append({"pred": spec.name, "entry": e.label, "answer": _short(o.val if o.ok else o.exc, 60)})
     if n == 0:
         res.caps.append("empty-domain:" + spec.name)
+    for lx, ly, kind in C.reordered_pairs(tier):
+        x, y = by[lx], by[ly]
+        if spec.domain(x) and spec.domain(y):
+            judge_reordered(spec, x, y, kind, res)
     cold.clear_all()
 
 
@@ -320,5 +394,10 @@ def replay(case, tier, res):
         cat, by, idx = _tables("thorough")
         e = by[case["entry"]]
     if not spec.domain(e):
+        return
+    if case.get("clause") == "reordered-twin":
+        y = by[case["twin"]]
+        if spec.domain(y):
+            judge_reordered(spec, e, y, case["kind"], res)
         return
     judge(spec, e, res, by, idx, all_twins=True)
